@@ -1,5 +1,5 @@
 (* InitAccept.v — init_linear p' from acceptance: for a program p with
-     typecheck p = Accept p',  in_fragment p',  prog_syn_ok p,  rt_syn_ok p   (as in DeterminismTc.v)
+     typecheck p = Accept p',  in_fragment p',  prog_syn_ok p,  raw_ok p   (as in DeterminismTc.v)
    and the decidable syntactic test core_src_b on the SOURCE p (no drop / split / droppable forward,
    one provider name per process, no empty case), `init_linear p'` is a theorem.
    Affinity of the bodies: C05 (LinearTop.tc_linear) through LinBridge; the initial forest: C07's
@@ -22,7 +22,7 @@ Definition core_src_b (p : program) : bool :=
   forallb (fun pd => core_form (pr_body pd) && nec (pr_body pd) &&
                      match pr_providers pd with [_] => true | _ => false end) (p_procs p).
 
-(* ------------------------------------------------------------------ rt_syn_ok: no channels in the source *)
+(* ------------------------------------------------------------------ raw_ok: no channels in the source *)
 Lemma syn_uninit_mut :
   (forall f rs, syn_form rs f = true -> uninit_form f = true) /\
   (forall b rs, syn_brs rs b = true -> uninit_brs b = true).
@@ -37,12 +37,12 @@ Proof.
   (* FCall *) apply forallb_forall. intros a Ha. rewrite forallb_forall in H. eauto.
 Qed.
 
-Lemma rt_syn_uninit p : rt_syn_ok p = true -> uninit_prog p = true.
+Lemma raw_uninit p : raw_ok p = true -> uninit_prog p = true.
 Proof.
-  unfold rt_syn_ok, uninit_prog. rewrite !andb_true_iff, !forallb_forall. intros [Hf Hp]. split.
-  - intros fd Hfd. specialize (Hf fd Hfd). unfold fun_syn_ok in Hf. apply andb_true_iff in Hf as [_ Hf].
+  unfold raw_ok, uninit_prog. rewrite !andb_true_iff, !forallb_forall. intros [Hf Hp]. split.
+  - intros fd Hfd. specialize (Hf fd Hfd). unfold fun_raw in Hf. apply andb_true_iff in Hf as [_ Hf].
     eapply (proj1 syn_uninit_mut); eauto.
-  - intros pd Hpd. specialize (Hp pd Hpd). unfold proc_syn_ok in Hp. apply andb_true_iff in Hp as [_ Hp].
+  - intros pd Hpd. specialize (Hp pd Hpd). unfold proc_raw in Hp. apply andb_true_iff in Hp as [_ Hp].
     eapply (proj1 syn_uninit_mut); eauto.
 Qed.
 
@@ -86,14 +86,14 @@ Qed.
 
 (* ------------------------------------------------------------------ the theorem *)
 Theorem init_linear_accept p p' :
-  typecheck p = Accept p' -> in_fragment p' -> prog_syn_ok p = true -> rt_syn_ok p = true ->
+  typecheck p = Accept p' -> in_fragment p' -> prog_syn_ok p = true -> raw_ok p = true ->
   core_src_b p = true -> init_linear p'.
 Proof.
   intros Ha Hf PS RS Hc.
   pose proof (teq_rt_laws (p_types p')) as Hlaws.
   pose proof (tc_annotations_typed_rt p p' Ha PS RS Hf) as Hst.
   destruct (typecheck_erase p p' Ha) as (Sf & Sp & _).
-  pose proof (rt_syn_uninit p RS) as Hu.
+  pose proof (raw_uninit p RS) as Hu.
   destruct (tc_linear p p' Hu Ha) as (Lf & Lp & _).
   destruct (tc_sound (fun _ _ _ => True) (fun _ _ _ _ _ _ _ => I) p p' Ha) as (pe & (_ & _ & Ep & _) & OK).
   pose proof (elab_procs_shape _ _ _ Ep) as Sh.
